@@ -1,10 +1,15 @@
 import Gallia.Lib.Proto
 import Gallia.Model.UdsResp
 import Gallia.Model.UdsRespCtor
+import Gallia.Model.UdsRespFields
 open Gallia Gallia.Proto Gallia.UdsResp
 
 /-
   Line protocol of the C02 model driver:
+    fat <hex>      ->  none | ok <Class> <leaf>=<value>...   (`fieldsAt` of the class `decodeResp` accepts the bytes as: the table's
+                       position slices, nothing taken from the decoded object)
+    frm <Class> <hex>  ->  no-class | reject <reason> | ok <Class> <field>=... pdu=<hex>   (`Class.from_pdu`, model `fromPdu`)
+    pst <Class> <hex>  ->  the same for `Class.parse_static` (a first byte 7F goes to NegativeResponse.from_pdu)
     dec <hex>      ->  reject <reason> | raw <hex> | ok <Class> <field>=<value>... pdu=<hex of encodeResp>
     con <Class> <form> <arg>...  ->  none | ok <Class> <field>=<value>... pdu=<hex>     (constructor + .pdu; `form` = Fields constructor,
                        args: decimal ints (signed), `none`, hex bytes (`-` empty), `,`-separated lists, `k:v` dict entries)
@@ -89,6 +94,28 @@ def parseFields : List String → Option Fields
   | ["transferExit", a] => do pure (.transferExit (← parseHex a))
   | _ => none
 
+def showFVal : FVal → String
+  | .int n => toString n
+  | .none => "none"
+  | .bytes b => hexOrDash b
+  | .recs l => if l.isEmpty then "-" else ",".intercalate (l.map fun p => s!"{p.1}:{p.2}")
+
+def showFat (b : Bytes) : String :=
+  match decodeResp b with
+  | .ok (.rawPos _) => "none"
+  | .ok _ =>
+    match fieldsAt (className b) b with
+    | some fs => joinSp (["ok", className b] ++ fs.map fun p => s!"{p.1}={showFVal p.2}")
+    | none => "no-table-row"
+  | .error _ => "none"
+
+def showCls (r : Option (Except Reject Resp)) : String :=
+  match r with
+  | none => "no-class"
+  | some (.error x) => s!"reject {showReject x}"
+  | some (.ok (.rawPos p)) => s!"raw {hexOrDash p}"
+  | some (.ok r) => joinSp (["ok", className (encodeResp r)] ++ fields r ++ [s!"pdu={hexOrDash (encodeResp r)}"])
+
 def showCon : Option Resp → String
   | none => "none"
   | some r => joinSp (["ok", className (encodeResp r)] ++ fields r ++ [s!"pdu={hexOrDash (encodeResp r)}"])
@@ -101,6 +128,15 @@ def step (line : String) : String :=
   | ["conv", cls, d, h] => match pInt d, parseHex h with
     | some d, some b => showCon (constructConv cls d b)
     | _, _ => "bad-op"
+  | ["frm", cls, h] => match parseHex h with
+    | some b => showCls (fromPdu cls b)
+    | none => "bad-op"
+  | ["pst", cls, h] => match parseHex h with
+    | some b => showCls (parseStatic cls b)
+    | none => "bad-op"
+  | ["fat", h] => match parseHex h with
+    | some b => showFat b
+    | none => "bad-op"
   | ["dec", h] => match parseHex h with
     | some b => showDec b
     | none => "bad-op"
